@@ -265,7 +265,9 @@ Section Dt.
   Variable L : lang.
   Variable e : env.
   Hypothesis HE : e_lang e = to_blang L.
-  Hypothesis HC : class5 e = true.
+  (* attributes: any language but OTA settings; text: any language without typed content *)
+  Hypothesis HNO : (bl_id (e_lang e) =? LANG_OTA_SETTINGS) = false.
+  Hypothesis HCP : is_wv (e_lang e) = false /\ (bl_id (e_lang e) =? LANG_DRMREL10) = false /\ is_syncml (e_lang e) = false.
   Hypothesis HV : vals_ok L = true.
   Hypothesis HX : l_exts L = None.
   Hypothesis Hopts : e_ignore_empty e = e_remove_blanks e.
@@ -281,9 +283,9 @@ Section Dt.
   Lemma special_attr_dt st ca na buf :
     abs_special_attr e st true ca na buf = if dt_ca L ca then Some (option_map wopq (dt_payload buf)) else None.
   Proof.
-    destruct (class5_split e HC) as (_ & _ & _ & Hota).
-    unfold abs_special_attr, dt_ca, S.is_datetime_attr. cbv zeta. rewrite lid_eq in *.
-    unfold LANG_SI10, LANG_EMN10, LANG_OTA_SETTINGS in *.
+    pose proof HNO as Hota.
+    unfold abs_special_attr, dt_ca, S.is_datetime_attr. cbv zeta. rewrite lid_eq in Hota |- *.
+    unfold LANG_SI10, LANG_EMN10, LANG_OTA_SETTINGS in Hota |- *.
     destruct (l_id L =? 1301) eqn:E1.
     - apply N.eqb_eq in E1. rewrite E1. cbn [N.eqb Pos.eqb andb orb].
       destruct ca as [[p t]|]; [|reflexivity]. destruct p; [|reflexivity]. cbn [N.eqb andb]. rewrite orb_false_r. reflexivity.
@@ -301,7 +303,7 @@ Section Dt.
 
   Lemma abs_value5_content_plain st par buf : in_cdata st = false -> abs_value5 e st false None [] par buf = abs_value e st false buf.
   Proof.
-    intros Hic. destruct (class5_split e HC) as (Hw & Hd & Hs & _).
+    intros Hic. destruct HCP as (Hw & Hd & Hs).
     unfold abs_value5, abs_value. destruct buf as [|c0 buf]; [reflexivity|].
     unfold abs_special_attr, abs_special_content, the_buffer_of. cbv zeta. rewrite Hic, Hw, Hd, Hs. cbn [negb andb]. reflexivity.
   Qed.
@@ -347,7 +349,7 @@ Section Dt.
                  S.ds_tagcp dst' = S.ds_tagcp dst /\ S.ds_cur dst' = S.ds_cur dst /\
                  tagcp st' = tagcp st /\ cur_tag st' = cur_tag st /\ in_cdata st' = false.
   Proof.
-    intros Hsub Hok Hic Hcp. unfold aok_dt in Hok. apply andb_true_iff in Hok as [Ha Hdt].
+    clear HCP. intros Hsub Hok Hic Hcp. unfold aok_dt in Hok. apply andb_true_iff in Hok as [Ha Hdt].
     unfold attr_event5, acan_dt. destruct (is_dt_attr L a) eqn:DT.
     - (* %Datetime attribute: token start without prefix, OPAQUE BCD *)
       apply andb_true_iff in Hdt as [Hnone Hcan].
@@ -381,7 +383,7 @@ Section Dt.
       + rewrite special_attr_dt. cbn [dt_ca]. rewrite DT. unfold canon_dt in Hcan |- *.
         destruct (dt_payload (x :: s)) as [d|] eqn:PD; [|discriminate]. cbn [option_map].
         intros E; injection E as <- <-. exists dst1. split; [|rewrite Q1, Q2, Q3, Q4; auto 8].
-        destruct (class5_split e HC) as (_ & _ & _ & Hota). rewrite lid_eq in Hota. unfold LANG_OTA_SETTINGS in Hota.
+        pose proof HNO as Hota. rewrite lid_eq in Hota. unfold LANG_OTA_SETTINGS in Hota.
         unfold S.den_attr, S.den_attr_raw. cbn [S.wa_start S.wa_vals wopq S.den_vals S.den_val S.den_str S.de_lang]. rewrite DS.
         destruct d as [|d0 dr].
         * cbn [S.bytes_okb forallb Parser.blen List.length andb]. rewrite Hota. reflexivity.
@@ -406,7 +408,7 @@ Section Dt.
                  S.ds_attrcp dst' = attrcp st' /\ S.ds_tagcp dst' = S.ds_tagcp dst /\ S.ds_cur dst' = S.ds_cur dst /\
                  tagcp st' = tagcp st /\ cur_tag st' = cur_tag st /\ in_cdata st' = false.
   Proof.
-    induction l as [|a r IH]; intros st na ws st' dst Hs Hok Hic Hcp; cbn [abs_attrs5 map].
+    clear HCP. induction l as [|a r IH]; intros st na ws st' dst Hs Hok Hic Hcp; cbn [abs_attrs5 map].
     - intros E; injection E as <- <-. exists dst. cbn. auto 8.
     - cbn [forallb] in Hok. apply andb_true_iff in Hok as [Ha Hr].
       destruct (abs_attr5 e st na a) as [[w st1]|] eqn:A; [|discriminate].
@@ -436,7 +438,7 @@ Section Dt.
       exists (chars c). split; [|auto].
       cbn [D1.den_items S.den_item S.den_str S.de_lang]. rewrite Hb.
       replace (S.u32_okb (Parser.blen c)) with true by (symmetry; exact Hl). cbn [andb].
-      destruct (class5_split e HC) as (Hw & Hd & Hs & _).
+      destruct HCP as (Hw & Hd & Hs).
       assert (PO : forall x, S.opaque_kind (l_id L) x = S.OPlain).
       { intros x. rewrite HE in Hw, Hd, Hs.
         unfold is_wv, is_syncml, LANG_WV_CSP11, LANG_WV_CSP12, LANG_DRMREL10, LANG_SYNCML10, LANG_SYNCML11, LANG_SYNCML12 in *.
@@ -571,6 +573,7 @@ Theorem strict_decode_of_encoding5 tblb TBL L o tag attrs ch bs :
 Proof.
   cbv zeta. intros HC HV HX HTB HT HFind Hv Hp1 Hp0 Hpid Hlen E. set (e := enc_env (to_blang L) o) in *.
   assert (HE : e_lang e = to_blang L) by reflexivity.
+  destruct (class5_split e HC) as (W1 & W2 & W3 & HNO5). pose proof (conj W1 (conj W2 W3)) as HCP5.
   assert (Haok : forall a, aok_dt L a = true -> attr_ok3 L a = true) by (intros a H; unfold aok_dt in H; now apply andb_true_iff in H as [H _]).
   assert (Htok : forall f p c, tok_plain f p c = true -> allc S.is_byte c = true).
   { intros f p c H. unfold tok_plain in H. destruct (tag_bin p); [now apply andb_true_iff in H as [H _]|exact (okb_lt _ H)]. }
@@ -597,8 +600,8 @@ Proof.
   assert (Hdc : dcur_ok true None (S.mk_dstate 0 0 None) None) by (intros _ p t o0 nm Ep; discriminate).
   destruct (all_node_den5 tblb L e HE (final_tbl e st') (doc_strtbl e st') G1 G2 (aok_dt L) (acan_dt L) tok_plain
               (tev_plain (negb (e_remove_blanks e)) (has_attr_table e))
-              (fun l st na ws st'0 dst => den_all_attrs5 L e HE HC HV HX (final_tbl e st') (doc_strtbl e st') G1 G2 G3 l st na ws st'0 dst)
-              (fun first st par c items st'0 d me dst => text_den5 L e HE HC HV HX Ho (final_tbl e st') (doc_strtbl e st') G1 G2 G3 first st par c items st'0 d me dst)
+              (fun l st na ws st'0 dst => den_all_attrs5 L e HE HNO5 HV HX (final_tbl e st') (doc_strtbl e st') G1 G2 G3 l st na ws st'0 dst)
+              (fun first st par c items st'0 d me dst => text_den5 L e HE HCP5 HV HX Ho (final_tbl e st') (doc_strtbl e st') G1 G2 G3 first st par c items st'0 d me dst)
               (NElt tag attrs ch) true None 0 None _ [root] st' (S.mk_dstate 0 0 None) HT G4 Z5 Z4 Hdc (eq_sym Z2) (eq_sym Z3) AN)
     as (evs & dst' & DN & MG & _).
   assert (Hden : exists evs', S.denote_with TBL (Some L) (abs_doc2 e st' root) = Some evs' /\
